@@ -282,6 +282,58 @@ def g2_reference_binding(ctx: Ctx):
               'rebound = another plain assignment to the same storage class (an element store is not a rebind)', 'changed')
 
 
+def g4_chain_operands_once(ctx: Ctx):
+    """A comparison chain `a < m < c` evaluates `m` once (the interpreters bind it), and only when the pairs before it
+    held.  The emitter writes the chain as text: the text of an operand that is more than a name or a literal -- a call
+    that stores through its argument -- may appear in it once only, and in operand order.  `_visit_compare` is evaluated,
+    from its source, on chains of two to four operands whose middle operands are names, literals or calls."""
+    from itertools import product
+
+    from ..minipy import Interp, Obj
+    q = '_CppEmitInstance._visit_compare'
+    owner = None
+    for name, cdef in ctx.repo.classes(EMITTER):
+        if any(isinstance(s, ast.FunctionDef) and s.name == '_visit_compare' for s in cdef.body):
+            owner = name
+    if owner is None:
+        raise ShapeError('_visit_compare not found in the emitter')
+    q = f'{owner}._visit_compare'
+    meths = {n: f for n, (_, _, f) in ctx.repo.methods(EMITTER, owner, inherited=False).items()}
+    fn = meths['_visit_compare']
+    kinds = {'name': lambda i: Obj('Var', text=f'v{i}'), 'literal': lambda i: Obj('Integer', text=f'{i}'), 'call': lambda i: Obj('Call', text=f'CALL{i}(xs)')}
+    is_a = lambda k, c: k == c or (c in ('RealVal', 'RationalVal', 'ValueExpr') and k == 'Integer') or (c == 'Expr')  # noqa: E731
+    n = 0
+    for size in (2, 3, 4):
+        for mids in product(kinds, repeat=size - 2):
+            shape = ['call'] + list(mids) + ['call']
+            args = [kinds[k](i) for i, k in enumerate(shape)]
+            e = Obj('Compare', args=args, ops=[Obj('CompareOp', symbol=lambda: '<') for _ in range(size - 1)])
+            tmp = [0]
+
+            def fresh():
+                tmp[0] += 1
+                return f'_tmp{tmp[0]}'
+            it = Interp({}, meths, self_obj=Obj(owner), is_a=is_a,
+                        overrides={'self._visit_expr': lambda a, c: a.fields['text'], 'self._storage_for_expr': lambda a: Obj('CppScalar'), 'scalar_sup': lambda tys: tys[0],
+                                   'self._maybe_cast': lambda x, a, b: x, 'self._fresh_temp': fresh, 'CppEmitError': lambda *a, **k: Exception('refused')})
+            try:
+                out = it.call_function(fn, [e, None], bound_self=True)
+            except ShapeError:
+                raise
+            except Exception:
+                out = None          # a refusal is not a wrong answer
+            n += 1
+            if out is None:
+                ctx.ok(EMITTER, fn, q, f'chain of {size} with middle operands {list(mids) or "none"}: refused')
+                continue
+            twice = [a.fields['text'] for a in args if a.kind == 'Call' and out.count(a.fields['text']) != 1]
+            order = [out.find(a.fields['text']) for a in args if a.kind == 'Call']
+            ctx.check(not twice and order == sorted(order), EMITTER, fn, q, f'chain of {size} with middle operands {list(mids) or "none"}: every call is written once, in operand order',
+                      f'emitted `{out[:160]}`: {twice or "out of order"} -- `0 < bump(xs) < 10` runs bump twice, the interpreter once')
+    if n < 13:
+        raise ShapeError('chain table shrank')
+
+
 UNBOX = 'fpy2/backend/cpp/unbox.py'
 
 
@@ -498,6 +550,7 @@ RULES = [
     Rule('C11.X1', 'every node kind is emitted or refused; no signature => CppEmitError; widening only under REAL', x1_emit_or_refuse, 40, 'X'),
     Rule('C11.G1', 'explicit roundings are emitted as casts only when the context is exactly a machine format', g1_cast_is_round, 5, 'G'),
     Rule('C11.G3', 'compiled copies of a helper are keyed by every informative argument format', g3_specialisation_keys, 7, 'G'),
+    Rule('C11.G4', 'a comparison chain is emitted with every operand that is more than a name or a literal written once, in order', g4_chain_operands_once, 13, 'G'),
     Rule('C11.G2', 'a list name is bound as a C++ reference to another variable only when neither is ever rebound', g2_reference_binding, 4, 'G'),
     Rule('C11.T2', 'the interpreter gives an exact zero sum the sign the machine gives it (-0 under round-toward-negative)', t2_zero_sums, 4, 'T'),
     Rule('C11.P2', 'range loops: the exit test follows the sign of the step; stop and step are fixed before the first trip', p2_range_loops, 11, 'P,T'),
@@ -508,6 +561,11 @@ RULES = [
 from ..selftest import Mutant  # noqa: E402
 
 MUTANTS = [
+    Mutant('chain-middle-operand-written-twice', EMITTER, "        if any(not isinstance(a, Var | RealVal | BoolVal) for a in e.args[1:-1]):", "        if False:", 'C11.G4',
+           'finding F116 before its repair: 0 < bump(xs) < 10 runs bump twice'),
+    Mutant('chain-operands-bound-last-first', EMITTER, "        body = [f'auto&& {names[0]} = {args[0]};']\n        for i, op in enumerate(e.ops):\n            body.append(f'auto&& {names[i + 1]} = {args[i + 1]};')\n",
+           "        body = []\n        for i, op in enumerate(e.ops):\n            body.append(f'auto&& {names[i + 1]} = {args[i + 1]};')\n            if i == 0:\n                body.append(f'auto&& {names[0]} = {args[0]};')\n", 'C11.G4',
+           'the first operand evaluated after the second'),
     Mutant('one-uninformative-argument-drops-the-key', 'fpy2/transform/specialize.py', "    if arg_fmts is None or all(_is_trivial_fmt(f) for f in arg_fmts):", "    if arg_fmts is None or any(_is_trivial_fmt(f) for f in arg_fmts):", 'C11.G3',
            'seeded change C11e: scale(x: float, False) and scale(y: double, True) share the float copy'),
     Mutant('key-from-the-first-argument-only', 'fpy2/transform/specialize.py', "    parts = [repr(f) if f is not None else 'X' for f in arg_fmts]", "    parts = [repr(f) if f is not None else 'X' for f in arg_fmts[:1]]", 'C11.G3'),
